@@ -6,9 +6,18 @@
         reply: ok | SPEC notwf proto=<k> <first failing condition>      (translation validation: `wf` decides)
     C07 dec <word> => <NAME> <operands as printed by FunctionProto.String()>
         reply: ok | MODEL <expected>    (differential test of the regenerated decoders against the real ones)
+    C07 frag <prog> => <proto> | compile-error <msg>
+        <prog> in the token language of the C01M engine (a program of the modelled compiler fragment), <proto> the
+        prototype the REAL compiler produced for its rendering.  The engine computes `fragProto` (compile model →
+        patchCode → `toProto`) and answers MODEL when it differs from the real prototype in any field (this is the tie
+        of `toProto`/`fragProto`, the objects of `compile_fragment_wf`), MODEL theorem-instance when `FragOK` holds
+        but `wf` rejects the model's prototype (an instance of the theorem, evaluated), SPEC notwf when `wf` rejects
+        the real prototype.
 -/
 import GLua.Engines.Common
+import GLua.Engines.C01MEng
 import GLua.Model.Verifier
+import GLua.Model.CompileProto
 
 namespace GLua.Eng.ProtoEng
 open GLua GLua.Eng GLua.Verifier GLua.Generated
@@ -103,9 +112,34 @@ def showDec (w : Nat) : String :=
   else if ty = "opTypeABx" then s!"{name} {d.a} {d.bx}"
   else s!"{name} {d.a} {d.sbx}"
 
+/-- the wire form of a prototype (same as harness/c07.go serializeProto) -/
+def showProto (p : Proto) : String :=
+  let nat (a : Array Nat) : List String := a.toList.map toString
+  " ".intercalate (["P", toString p.numUpvalues, toString p.nDbgUpvalues, toString p.numParams, toString p.isVarArg,
+      toString p.numRegs, toString p.nLines, "C", toString p.code.size] ++ nat p.code ++
+    ["K", toString p.consts.size] ++ p.consts.toList.map (fun k => match k with | none => "n" | some h => "s" ++ h) ++
+    ["S", toString p.strConsts.size] ++ p.strConsts.toList.map (fun s => "s" ++ s) ++
+    ["F", toString p.protoNups.size] ++ nat p.protoNups)
+
+def handleFrag (args impl : List String) : Verdict :=
+  match C01MEng.parseProg args with
+  | none => { model := some "bad-program" }
+  | some (n, b, _) =>
+    if !Compile.scopeOK n b then { model := some "ill-scoped-program(generator)" } else
+    match Compile.fragProto n b with
+    | .error e => { model := cmpModel ("compile-error " ++ e.replace " " "_") impl }
+    | .ok p =>
+      match cmpModel (showProto p) impl with
+      | some m => { model := some m }
+      | none =>
+        if Compile.FragOK n b && !wf p then { model := some "theorem-instance:FragOK-but-not-wf" }
+        else if !wf p then { spec := some ("notwf proto=0 " ++ whyNot p ++ " (outside FragOK)") }
+        else ok
+
 def handle (ws : List String) : Verdict :=
   let (args, impl) := splitArrow ws
   match args with
+  | "frag" :: rest => handleFrag rest impl
   | "verify" :: _src :: rest =>      -- `_src` = src:<hex of the source> (replay only)
     match parseProtos rest #[] with
     | none => { model := some "bad-proto-encoding" }
